@@ -338,3 +338,34 @@ def c06_obj(ctx, case):
     changed = run_sequence(ctx, real, nfft, vec, case["ops"], sampling=fs, p=p)
     ctx.cls(case["kind"], "real" if real else "complex", "even" if nfft % 2 == 0 else "odd")
     ctx.nontrivial(changed >= 1 and len(set(np.round(np.asarray(vec, dtype=float), 12).tolist())) >= 2)
+
+
+# ---- the three frequency axes for every NFFT ---------------------------------
+def enum_axis(tier):
+    top = 4096 if tier == "thorough" else 1024
+    for fs in (1.0, 2.0, 1024.0, 44100.0, 0.5, 1000.0):
+        for lo in range(1, top + 1, 64):
+            yield {"fs": fs, "lo": lo, "hi": min(top, lo + 63)}
+
+
+@sub("C06.axis", enum=enum_axis, exhaustive=True, shards_quick=4, shards_thorough=8,
+     doc="Range(NFFT, sampling): onesided / twosided / centerdc axes have NFFT/2+1 | (NFFT+1)/2, NFFT, NFFT entries equal to "
+         "k*df (centred: (k - NFFT//2)*df), for every NFFT 1..1024 (4096 in the thorough tier) x 6 sampling frequencies")
+def c06_axis(ctx, case):
+    fs = case["fs"]
+    n = 0
+    for nfft in range(case["lo"], case["hi"] + 1):
+        r = Range(nfft, fs)
+        df = fs / float(nfft)
+        sig = {"clause": "axis", "parity": nfft % 2}
+        ctx.check(abs(r.df - df) <= 1e-15 * df, "Range(%d, %g).df = %r" % (nfft, fs, r.df), sig=sig)
+        for side, L, off in (("onesided", nb1(nfft), 0), ("twosided", nfft, 0), ("centerdc", nfft, nfft // 2)):
+            ax = np.asarray(getattr(r, side)(), dtype=float)
+            ctx.check(len(ax) == L, "Range(%d, %g).%s() has %d entries, expected %d" % (nfft, fs, side, len(ax), L), sig=dict(sig, side=side))
+            exp = (np.arange(L) - off) * df
+            ctx.check(np.all(np.abs(ax - exp) <= 1e-12 * fs), "Range(%d, %g).%s() is not (k - %d)*df" % (nfft, fs, side, off), sig=dict(sig, side=side))
+        n += 1
+    ctx.extra_evals = n - 1
+    ctx.extra_nontrivial = n - 1
+    ctx.nontrivial(True)
+    ctx.cls("fs=%g" % fs)
